@@ -66,6 +66,10 @@ def find_memos(sm, cg) -> List[Memo]:
         if not stores:
             continue
         g = cfg_of(f.node)
+        pm = {}
+        for n_ in ast.walk(f.node):
+            for c_ in ast.iter_child_nodes(n_):
+                pm[c_] = n_
         for st in stores:
             node = g.node_of_stmt.get(st)
             if node is None:
@@ -73,10 +77,21 @@ def find_memos(sm, cg) -> List[Memo]:
             for t in st.targets:
                 if not (isinstance(t, ast.Attribute) and isinstance(t.value, ast.Name) and t.value.id == self_name):
                     continue
-                for tn, lab in dom.guards_of(g, node):
-                    if tn.kind == 'test' and _reads_field(tn.ast, self_name, t.attr):
-                        out.append(Memo(f, t.attr, node, tn))
+                # the store sits in a branch of an `if` whose condition (any atom of it) reads the same field
+                cur = pm.get(st)
+                hit = False
+                while cur is not None and cur is not f.node:
+                    if isinstance(cur, ast.If) and _reads_field(cur.test, self_name, t.attr) and g.node_of_stmt.get(cur) is not None:
+                        out.append(Memo(f, t.attr, node, g.node_of_stmt[cur]))
+                        hit = True
                         break
+                    cur = pm.get(cur)
+                if not hit:
+                    # guard-clause form: `if self.F is not None: return` ... `self.F = E`
+                    for tn, lab in dom.guards_of(g, node):
+                        if tn.kind == 'test' and _reads_field(tn.ast, self_name, t.attr):
+                            out.append(Memo(f, t.attr, node, tn))
+                            break
     return out
 
 
